@@ -182,10 +182,18 @@ Definition dec_pvalue (ty s : string) : option pvalue :=
   else option_map PVb64 (b64_any s).
 Definition enc_pvalue (v : pvalue) : string := match v with PVb64 bs => b64url_enc bs | PVmb s => s end.
 
+(* the JSON schema of a DID document: type, creator, created, proofValue are required strings; domain and nonce are
+   strings when present *)
+Definition is_str (o : option json) : bool := match o with Some (JStr _) => true | _ => false end.
+Definition str_or_absent (o : option json) : bool := match o with None | Some (JStr _) => true | _ => false end.
+Definition proof_schema_ok (m : obj) : bool :=
+  is_str (lookup m "type") && is_str (lookup m "creator") && is_str (lookup m "created") && is_str (lookup m "proofValue") &&
+  str_or_absent (lookup m "domain") && str_or_absent (lookup m "nonce").
 (* populateProofs (context v1) *)
 Definition dec_dproof (did base : string) (j : json) : option dproof :=
   match j with
   | JObj m =>
+      if negb (proof_schema_ok m) then None else
       t <- parse_tm (str_entry (lookup m "created")) ;;
       let ty := str_entry (lookup m "type") in
       pv <- dec_pvalue ty (str_entry (lookup m "proofValue")) ;;
@@ -198,14 +206,15 @@ Definition dec_dproof (did base : string) (j : json) : option dproof :=
               dp_purpose := str_entry (lookup m "proofPurpose") |}
   | _ => None
   end.
-(* populateRawProofs.  AsIs: a map with exactly these seven members, so creator / domain / nonce / proofPurpose that the
-   document did not have were invented as "" (fix of wave 5: the optional members are written only when set) *)
+(* populateRawProofs.  AsIs: a map with exactly these seven members, so domain / nonce / proofPurpose that the
+   document did not have were invented as "" (fixes 5e7cd95, eff1d5c: the optional members are written only when set;
+   creator is required by the schema and always written) *)
 Definition opt_str (w : variant) (k s : string) : obj :=
   match w with AsIs => [(k, JStr s)] | Fixed => emit_str k s true end.
 Definition enc_dproof (w : variant) (did base : string) (p : dproof) : json :=
   JObj ([("type", JStr (dp_type p)); ("created", JStr (fmt_tm (dp_created p)))] ++
-        opt_str w "creator" (if dp_rel p then make_rel did base (dp_creator p) else dp_creator p) ++
-        [("proofValue", JStr (enc_pvalue (dp_value p)))] ++
+        [("creator", JStr (if dp_rel p then make_rel did base (dp_creator p) else dp_creator p));
+         ("proofValue", JStr (enc_pvalue (dp_value p)))] ++
         opt_str w "domain" (dp_domain p) ++
         opt_str w "nonce" (b64url_enc (dp_nonce p)) ++
         opt_str w "proofPurpose" (dp_purpose p)).
